@@ -37,7 +37,31 @@ def prims():
                 return [(st, "ret", adt(OPT, 0, ()))]
             return [(st, "ret", adt(OPT, 1, (I(r),)))]
         return [(st, "ret", TOP)]
+    def vec_clear(ip, st, args, info):
+        r = args[0]
+        ip.write(st, r[1], r[2], ("vec", ()))
+        return [(st, "ret", UNIT)]
+
+    def vec_truncate(ip, st, args, info):
+        r, n = args[0], args[1]
+        v = ip.read(st, r[1], r[2])
+        if v[0] != "vec" or n[0] != "i":
+            raise interp.InterpError("symbolic truncate")
+        ip.write(st, r[1], r[2], ("vec", v[1][:n[1]]))
+        return [(st, "ret", UNIT)]
+
+    def unmodelled_vec(ip, st, args, info):
+        raise interp.Unmodelled("Vec method %s is not modelled by the slot-table analysis" % info["def"])
+    extra = {}
+    for m in ("remove", "swap_remove", "insert", "drain", "retain", "resize", "resize_with", "append", "split_off",
+              "dedup", "extend_from_slice", "set_len", "shrink_to_fit", "shrink_to", "reserve", "retain_mut"):
+        extra["alloc::vec::Vec::" + m] = unmodelled_vec
+    extra["alloc::vec::Vec::shrink_to_fit"] = lambda ip, st, args, info: [(st, "ret", UNIT)]
+    extra["alloc::vec::Vec::reserve"] = lambda ip, st, args, info: [(st, "ret", UNIT)]
     return {
+        **extra,
+        "alloc::vec::Vec::clear": vec_clear,
+        "alloc::vec::Vec::truncate": vec_truncate,
         "<alloc::vec::Vec as core::ops::index::IndexMut>::index_mut": index_mut,
         "<alloc::vec::Vec as core::ops::index::Index>::index": index_mut,
         "core::ops::index::IndexMut::index_mut": index_mut,
@@ -78,7 +102,114 @@ def read(st):
     return v[3][0][1], v[3][1][1]
 
 
+def explore(chk, prog, depth=7, max_live=3, max_handles=3):
+    """Reachability exploration from Slots::new(): every sequence of add / inc / dec (as performed by stash /
+    clone / drop of handles) up to `depth` operations with at most `max_live` occupied slots, interpreted from
+    MIR, compared after every step with a ghost model of the live handles: a live handle's slot is Occupied and
+    holds the pointer that was stashed; add never returns the index of a live handle."""
+    ip = Interp(prog, prims=prims(), strict=True)
+    ip.lenient_std = True
+    for fn in ("new", "add", "inc", "dec"):
+        if not chk.anchor("dynamic_roots::Slots::" + fn, ("dynamic_roots::Slots::" + fn) in prog.seed_n):
+            return
+    k = {fn: prog.seed_n["dynamic_roots::Slots::" + fn][0] for fn in ("new", "add", "inc", "dec")}
+    names = [f["name"] for f in prog.all_adts[SLOTS]["variants"][0]["fields"]]
+    if "slots" not in names:
+        chk.violation("ANCHOR-MISSING", "dynamic_roots::Slots.slots", "field `slots` not found")
+        return
+    si = names.index("slots")
+    try:
+        outs = [o for o in ip.run(k["new"], [], State()) if o.kind == "return"]
+        init = outs[0].value
+    except (interp.Unmodelled, interp.InterpError, IndexError) as e:
+        chk.inst("slot-reachability", "Slots::new", False, detail="could not be analysed: %s" % e)
+        return
+    seen = set()
+    work = [(init, (), ())]   # (slots value, ghost tuple of (idx, ptr, handles), op trail)
+    nstates = 0
+    ntrans = 0
+    probs = {}
+    fresh = [("obj", 100 + i) for i in range(depth + 1)]
+
+    def check(val, ghost, trail):
+        vec = val[3][si]
+        items = vec[1] if vec[0] == "vec" else ()
+        for (idx, ptr, h) in ghost:
+            ok = idx < len(items) and items[idx][0] == "adt" and items[idx][2] == 1 and items[idx][3][0] == ptr
+            if not ok:
+                what = items[idx] if idx < len(items) else "missing (table has %d slots)" % len(items)
+                probs.setdefault("a live handle (index %d, %d handle(s)) no longer resolves to its stashed pointer: slot is %s" % (
+                    idx, h, "vacant" if isinstance(what, tuple) and what[2] == 0 else ("another pointer" if isinstance(what, tuple) else what)),
+                    trail)
+    while work:
+        val, ghost, trail = work.pop()
+        key = (val, ghost)
+        if key in seen:
+            continue
+        seen.add(key)
+        nstates += 1
+        if len(trail) >= depth:
+            continue
+        ops = []
+        if len(ghost) < max_live:
+            ops.append(("add", None))
+        for (idx, ptr, h) in ghost:
+            if h < max_handles:
+                ops.append(("inc", idx))
+            ops.append(("dec", idx))
+        for (op, idx) in ops:
+            st = State()
+            st.mem[("slots",)] = val
+            try:
+                if op == "add":
+                    p = fresh[len(trail)]
+                    outs = ip.run(k["add"], [ref(("slots",), ()), p], st)
+                else:
+                    outs = ip.run(k[op], [ref(("slots",), ()), I(idx)], st)
+            except (interp.Unmodelled, interp.InterpError, IndexError) as e:
+                probs.setdefault("could not be analysed: %s" % e, trail + ((op, idx),))
+                continue
+            ntrans += 1
+            t2 = trail + ((op, idx),)
+            rets = [o for o in outs if o.kind == "return"]
+            if len(rets) != 1 or len(outs) != 1:
+                probs.setdefault("%s panics / diverges in a state reachable by handle operations" % op, t2)
+                continue
+            o = rets[0]
+            nv = o.st.mem[("slots",)]
+            g = list(ghost)
+            if op == "add":
+                ni = o.value[1] if o.value[0] == "i" else None
+                if ni is None or any(i == ni for (i, _, _) in g):
+                    probs.setdefault("add returned the index of a live handle (%s): slot reuse changes what a live handle "
+                                     "resolves to" % ni, t2)
+                    continue
+                g.append((ni, fresh[len(trail)], 1))
+            elif op == "inc":
+                g = [(i, p_, h + 1) if i == idx else (i, p_, h) for (i, p_, h) in g]
+            else:
+                g = [(i, p_, h - 1) if i == idx else (i, p_, h) for (i, p_, h) in g]
+                g = [x for x in g if x[2] > 0]
+            g = tuple(sorted(g))
+            check(nv, g, t2)
+            work.append((nv, g, t2))
+    for text, trail in sorted(probs.items())[:6]:
+        chk.inst("slot-reachability", text[:120], False,
+                 detail="%s; operation sequence from an empty table: %s" % (text, " ; ".join(
+                     "%s(%s)" % (o, "" if i is None else i) for (o, i) in trail)))
+    if not probs:
+        chk.inst("slot-reachability", "all-reachable-slot-tables", True,
+                 sample={"states": nstates, "transitions": ntrans, "depth": depth, "max_live_slots": max_live})
+    chk.extra["slot_reachability"] = {"states": nstates, "transitions": ntrans, "depth": depth}
+
+
 def run_tables(chk, prog, config="default"):
+    names = [f["name"] for f in prog.all_adts[SLOTS]["variants"][0]["fields"]]
+    if names != ["slots", "next_free"]:
+        # the table constructor below builds states by hand for the reviewed representation; a different
+        # representation is covered by the reachability exploration (slots.explore) alone
+        chk.note("Slots has fields %s: hand-built slot tables skipped, reachability exploration applies" % names)
+        return
     ip = Interp(prog, prims=prims(), strict=True)
     ip.lenient_std = False
     keys = {}
